@@ -87,7 +87,7 @@ func genBanner(t *rapid.T) BannerCase {
 		FetchMode:   rapid.SampledFrom([]string{"", "", "navigate", "nested-navigate", "cors"}).Draw(t, "mode"),
 		FetchDest:   rapid.SampledFrom([]string{"", "", "document", "iframe", "script"}).Draw(t, "dest"),
 		Host:        rapid.SampledFrom([]string{"app.example", "app.example:8443"}).Draw(t, "host"),
-		Path:        rapid.SampledFrom([]string{"/", "/page", "/a/b.html", "/x%20y", "/q"}).Draw(t, "path"),
+		Path:        rapid.SampledFrom([]string{"/", "/page", "/a/b.html", "/x%20y", "/q", "/a//b.html", "/a/./b", "/a/../b.html"}).Draw(t, "path"),
 		Query:       rapid.SampledFrom([]string{"", "a=1", "next=%2Fhome&x=<y>"}).Draw(t, "query"),
 		Status:      rapid.SampledFrom([]int{200, 200, 200, 201, 204, 301, 304, 404, 500}).Draw(t, "status"),
 		Disposition: rapid.SampledFrom(dispositions).Draw(t, "disp"),
